@@ -133,6 +133,24 @@ def m_timer(recs):
     return recs, k + 1, "a poll logged as firing"
 
 
+def m_fmt_view(recs):
+    k = first(recs, lambda r: r["ev"] == "Fmt" and r["kind"] == "written" and r["view"]["labels"])
+    recs[k]["view"]["labels"][0]["a"] ^= 1
+    return recs, k + 1, "address of a label in the view of a written object changed"
+
+
+def m_fmt_accept(recs):
+    k = first(recs, lambda r: r["ev"] == "Fmt" and r["kind"] == "read" and r["deser"] == "reject")
+    recs[k]["deser"] = "accept"
+    return recs, k + 1, "a rejected file logged as accepted"
+
+
+def m_fmt_byte(recs):
+    k = first(recs, lambda r: r["ev"] == "Fmt" and r["kind"] == "read" and r["deser"] == "accept" and r["view"]["blocks"] and r["view"]["blocks"][0]["w"])
+    recs[k]["view"]["blocks"][0]["w"][0] = 0x1234 if recs[k]["view"]["blocks"][0]["w"][0] != 0x1234 else 0x4321
+    return recs, k + 1, "a word of the object the reader built changed"
+
+
 CASES = [
     ("tables-decode", ["decode"], "TV_Tables", "TV_Tables.cfg", "i", m_decode, 3000),
     ("tables-offset", ["offset"], "TV_Tables", "TV_Tables.cfg", "i", m_offset, 2000),
@@ -151,6 +169,9 @@ CASES = [
     ("machine-int-pc", ["machine", "kind=int", "timers=1"], "TV_Machine", "TV_Machine.cfg", "l", m_machine_pc, 0),
     ("machine-dev-pc", ["machine", "kind=devices"], "TV_Machine", "TV_Machine.cfg", "l", m_machine_pc, 0),
     ("timer-fired", ["timer"], "TV_Timer", "TV_Timer.cfg", "l", m_timer, 0),
+    ("fmt-view", ["fmt", "n=60"], "TV_Fmt", "TV_Fmt.cfg", "l", m_fmt_view, 0),
+    ("fmt-accept", ["fmt", "n=60"], "TV_Fmt", "TV_Fmt.cfg", "l", m_fmt_accept, 0),
+    ("fmt-word", ["fmt", "n=60"], "TV_Fmt", "TV_Fmt.cfg", "l", m_fmt_byte, 0),
 ]
 
 
